@@ -192,6 +192,8 @@ def classify_report(text):
 def verdict(out, kernel=None):
     """turn sanitizer reports / contract breaches of the run just executed into a violation"""
     text = sanitizer_reports()
+    if text and "ERROR: AddressSanitizer" not in text and "runtime error:" not in text:
+        text = ""  # e.g. "WARNING: AddressSanitizer failed to allocate ..." for a refused huge capacity
     if text and out.violation is None:
         v = Violation("c04.sanitizer", classify_report(text), "sanitizer report during this run:\n" + text[:1500])
         out.violation = violation_dict(v, kernel)
